@@ -7,10 +7,11 @@ tie:    correspondence — harness `fmt` calls Number::pretty_print_with through
         classification of the f64 and its shortest round-trip digits from Python (repr) and must print the
         same text (vm_compute in coqc).  The displayed text is also read back through the real
         tokenizer/parser/evaluator (Context::interpret).
-oracle: exact rational arithmetic in Python (fractions): the read-back value must be the displayed decimal,
-        and the displayed decimal must be the computed value rounded to the displayed number of significant
-        digits (strict), or be within half a unit of the last displayed digit of a real that rounds to the
-        f64 (tolerant: double rounding through the shortest representation, counted, DESIGN.md §6 C14).
+oracle: exact rational arithmetic in Python (fractions): the read-back value must be the f64 nearest to the
+        displayed decimal, integers show all digits, and the displayed decimal must be exactly the shortest
+        round-trip decimal of the f64 rounded half-up to min(clamp(sig,1,255), #digits) significant digits (no
+        tolerance).  Cases where that differs from rounding the exact binary value (double rounding through the
+        shortest representation, DESIGN.md §6 C14) are counted in the evidence, not reported.
 """
 import collections
 import decimal
@@ -28,7 +29,7 @@ MANIFEST = dict(
     text="proof (partial). Machine-checked (Coq) for a model of Number::pretty_print_with and of pretty_dtoa's "
          "digits_to_a under numbat's configuration: for EVERY integer z and every separator/threshold setting, removing "
          "the separator from the displayed text gives exactly the decimal digits of z, which the literal reader reads "
-         "as z (C14_int, C14_int_digits); for EVERY shortest-digit string, decimal exponent and significant-digit "
+         "as z, and those digits are the canonical decimal numeral (C14_int, C14_int_digits, C14_int_canonical); for EVERY shortest-digit string, decimal exponent and significant-digit "
          "setting the float branch yields a literal of numbat's number syntax whose value is the shortest decimal "
          "rounded half-up to min(limit, available) significant digits, and that rounding is a nearest one "
          "(C14_float, C14_round_sig_correct); numbat's trimming/e+ post-processing preserves the value (C14_post); "
@@ -43,7 +44,7 @@ MANIFEST = dict(
     technique="Coq proof over an executable model + model/implementation correspondence by vm_compute + exact-rational oracle",
 )
 
-THEOREMS = ["C14_int", "C14_int_digits", "C14_float", "C14_round_sig_correct", "C14_post", "C14_special"]
+THEOREMS = ["C14_int", "C14_int_digits", "C14_int_canonical", "C14_float", "C14_round_sig_correct", "C14_post", "C14_special"]
 
 SEPS = ["_", ",", " ", "'", "", ".", "\u2009", "\u00a0", "__", "abc", "12345678", "\u2009\u2009\u2009",
         "123456789", "0", "-", "e", "x_x", "\u066c", "\u00b7", "\u2009\u2009\u2009\u2009"]
@@ -85,9 +86,25 @@ def coq_class(c):
     return "(CFloat %s [%s]%%N (%d)%%Z)" % ("true" if c[1] else "false", ";".join(map(str, c[2])), c[3])
 
 
+def coq_float(bits):
+    x = float_of(bits)
+    if math.isnan(x):
+        return "nan"
+    if math.isinf(x):
+        return "neg_infinity" if x < 0 else "infinity"
+    h = x.hex()
+    return "(%s)%%float" % h if h.startswith("-") else "%s%%float" % h
+
+
 def coq_case(case):
+    """the model gets the f64 itself (hex literal of the kernel's binary64) and, for the float branch, the
+    shortest digits; classification (NaN / inf / integer below 2^53 / other) happens in NumFmt/Classify.v,
+    which also rejects digits that do not denote a decimal in the rounding interval of that f64"""
     bits, thr, sig, sep = case
-    return "show_case (mkOpt %s %d %d) %s" % (common.coq_string(sep), thr, sig, coq_class(classify(bits)))
+    c = classify(bits)
+    ds, e = (c[2], c[3]) if c[0] == "float" else ([], 0)
+    return "show_case_f64 (mkOpt %s %d %d) %s [%s]%%N (%d)%%Z" % (
+        common.coq_string(sep), thr, sig, coq_float(bits), ";".join(map(str, ds)), e)
 
 
 def line_of(case):
@@ -147,31 +164,31 @@ def oracle(case, out):
         if stripped != str(int(x)) if x != 0 else stripped not in ("0", "-0"):
             return ("integer-digits", "integer %d displayed as %r (separator removed: %r)" % (int(x), text, stripped))
         return None
-    # float branch: last displayed digit has weight 10^q
-    q = (int((es or "") + ed) if ed else 0) - len(fp)
-    if shown != 0:
-        # zeros that only pad an integer-looking text up to the units position (e.g. 949.99 with one
-        # significant digit -> 900) are not displayed significant digits
-        lead = len(str(abs(shown.numerator) // shown.denominator)) - 1 if abs(shown) >= 1 else \
-            -len(str(shown.denominator // abs(shown.numerator)))
-        while Fraction(10) ** lead > abs(shown):
-            lead -= 1
-        while Fraction(10) ** (lead + 1) <= abs(shown):
-            lead += 1
-        q = max(q, lead - max(1, min(sig, 255)) + 1)
-    half = Fraction(10) ** q / 2
-    err = abs(shown - exact)
-    if err <= half:
-        return None
-    # tolerated: some real that rounds to x is within half a unit of the last displayed digit
-    ax = abs(x)
-    lo = (Fraction(ax) - Fraction(math.nextafter(ax, 0.0))) / 2
-    hi = (Fraction(math.nextafter(ax, math.inf)) - Fraction(ax)) / 2 if ax < 1.7976931348623157e308 else lo
-    slack = hi if abs(shown) >= abs(exact) else lo
-    if err <= half + slack:
-        return ("double-rounding", "x=%r displayed %r" % (x, text))
-    return ("wrong-rounding", "x=%r (exactly %s) displayed as %r: off by more than half a unit of the last displayed digit"
-            % (x, decimal.Decimal(x), text))
+    # float branch.  Acceptance (tightened in phase 2): the displayed decimal must be EXACTLY the shortest
+    # round-trip decimal of the f64 (Python repr) rounded half-up to min(clamp(sig,1,255), #digits) significant
+    # digits — the value C14_float proves for the model.  No tolerance.
+    cls = classify(bits)
+    ds, e10 = cls[2], cls[3]
+    limit = max(1, min(sig, 255))
+    V = int("".join(map(str, ds)))
+    if len(ds) > limit:
+        T = 10 ** (len(ds) - limit)
+        W = (2 * V + T) // (2 * T)
+        want = Fraction(W) * Fraction(10) ** (e10 - limit)
+    else:
+        want = Fraction(V) * Fraction(10) ** (e10 - len(ds))
+    if cls[1]:
+        want = -want
+    if shown != want:
+        return ("wrong-rounding", "x=%r (shortest decimal %s) displayed as %r; the shortest decimal rounded half-up to %d significant "
+                "digits is %s" % (x, repr(x), text, min(limit, len(ds)), want))
+    # informational: how that relates to the exact binary value
+    exact = Fraction(x)
+    if len(ds) > limit:
+        half = Fraction(10) ** (e10 - limit) / 2
+        if abs(shown - exact) > half:
+            return ("double-rounding", "x=%r displayed %r" % (x, text))
+    return None
 
 
 # --------------------------------------------------------------- generators
@@ -288,7 +305,9 @@ def run(chk):
     chk.trusted += [
         "model NumFmt/Model.v is a hand port of numbat/src/number.rs pretty_print_with_dtoa_config and of pretty_dtoa-0.3.0 digits_to_a "
         "restricted to numbat's FmtFloatConfig (max_sig_digits, round, add_point_zero(false), e-breaks -6/6)",
-        "f64 classification and shortest round-trip digits come from Python (repr); ryu d2d itself is not modelled",
+        "the model receives the f64 as a binary64 literal of the kernel and classifies it itself (NumFmt/Classify.v, executable, no theorems); "
+        "the shortest round-trip digits come from Python (repr) and are checked in the model to lie in the rounding interval of that f64; "
+        "ryu d2d itself is not modelled",
         "hook numbat::verif::misc::format_number(bits, sep, threshold, sig) = Number::pretty_print_with",
         "read-back through Context::interpret of the displayed text with the separator removed (str::replace)",
         "the model's literal reader covers numbat's number syntax without underscores; agreement with the real tokenizer is checked per case",
@@ -323,7 +342,9 @@ def run(chk):
         o = impl[n]
         obs = "P" if o.startswith("P:") else (o.rsplit("|", 1)[0] if "|" in o else o)
         items.append((coq_case(c), obs))
-    bad = common.coq_mismatches(["NumFmt.Model", "NumFmt.Exec"], items, "c14", shard_size=250)
+    bad = common.coq_mismatches(["NumFmt.Model", "NumFmt.Classify", "NumFmt.Exec"], items, "c14",
+                                shard_size=max(250, -(-len(items) // common.NPROC)),
+                                prelude="From Coq Require Import PrimFloat ZArith.")   # one wave of coqc processes
 
     # property oracle on every case
     kinds = collections.Counter()
